@@ -579,6 +579,8 @@ def generate():
     report["files"].append("Gen/MulKern.lean")
     report["kernels"].update(py2lean_kern.generate_w3jkern(fns, gen_dir, write_if_changed))
     report["files"].append("Gen/W3jKern.lean")
+    report["kernels"].update(py2lean_kern.generate_rotmkern(fns, gen_dir, write_if_changed))
+    report["files"].append("Gen/RotMKern.lean")
     # ---- Dispatch.lean (for the line-protocol driver): every generated def by name ------------
     import re as _re
     cases = []
